@@ -597,7 +597,7 @@ def gen_function_level(run, ctx, rks):
                     if rng.random() < ctx.scale(12, 100) / 100.0:
                         run.fn_case(rk, rng.choice(fixed[1:]), cm, h)
         # (2) random headers under random configurations
-        for _ in range(ctx.scale(350, 12000)):
+        for _ in range(ctx.scale(350, 8000)):
             cfg = rng.choice(fixed) if rng.random() < 0.3 else rand_cfg(rk, rng)
             h = base_header(rk, rng)
             if cfg and rng.random() < 0.6:
@@ -718,7 +718,7 @@ def gen_api_jws(run, ctx):
             ("jws.deserialize_json.general", "jws", 2, True), ("rfc7797.deserialize_compact", "jws7797", 1, False),
             ("rfc7797.deserialize_json", "jws7797", 2, False)]
     for entry, rk, nparts, multi in plan:
-        for _ in range(ctx.scale(110, 2500)):
+        for _ in range(ctx.scale(110, 1500)):
             cfg = api_cfg(rk, rng)
             members = []
             for _m in range(rng.choice([1, 1, 2]) if multi else 1):
@@ -737,6 +737,12 @@ def gen_api_jws(run, ctx):
                     if entry.endswith("deserialize_compact") and "alg" not in parts[0]:
                         parts[0]["alg"] = "HS256"        # extract_compact demands alg before any header check
                 members.append(parts)
+            if entry in ("rfc7797.serialize_json", "rfc7797.deserialize_json") and any(
+                    m[0] and m[1] and "b64" in m[1] for m in members):
+                # RFC 7797 section 3 (b64 must be integrity protected): next to a protected header the
+                # entry points refuse b64 in the unprotected header before any registry check; that
+                # rule is not part of C15 (b64 in the unprotected header WITHOUT a protected header is kept)
+                continue
             spec = {"entry": entry, "rk": rk, "cfg": cfg, "cm": False, "members": members,
                     "expect_payload": "deserialize" in entry}
             if not json_ok(spec):
@@ -798,7 +804,7 @@ def gen_api_jwe_produce(run, ctx):
     modes_all = ["dir", "A128KW", "ECDH-ES", "ECDH-ES+A128KW", "PBES2-HS256+A128KW", "A128GCMKW"]
     for entry, nparts, multi in (("jwe.encrypt_compact", 1, False), ("jwe.encrypt_json.flattened", 3, False),
                                  ("jwe.encrypt_json.general", 3, True)):
-        for _ in range(ctx.scale(170, 3500)):
+        for _ in range(ctx.scale(170, 2000)):
             nrec = rng.choice([1, 2]) if multi else 1
             modes = [rng.choice(modes_all if nrec == 1 else ["A128KW", "ECDH-ES+A128KW", "PBES2-HS256+A128KW", "A128GCMKW"])
                      for _r in range(nrec)]
@@ -817,7 +823,7 @@ def gen_api_jwe_consume_own(run, ctx):
     names = [n for n in ALL_NAMES if n != "b64"] + ["crit", "kid"]
     for entry, nparts, multi in (("jwe.decrypt_compact", 1, False), ("jwe.decrypt_json.flattened", 3, False),
                                  ("jwe.decrypt_json.general", 3, True)):
-        for _ in range(ctx.scale(170, 3500)):
+        for _ in range(ctx.scale(170, 2000)):
             nrec = rng.choice([1, 2]) if multi else 1
             modes = [rng.choice(["dir", "A128KW"])] if nrec == 1 else ["A128KW", "A128KW"]
             cfg = api_cfg("jwe", rng)
@@ -888,7 +894,7 @@ def gen_api_jwe_consume_lib(run, ctx):
                 bases.append(("jwe.decrypt_json.edited", r[1], modes))
     names = ALGSPEC + ["kid", "foo", "crit", "typ", "x-int", "x-str", "jku", "zip2"]
     for entry, token, modes in bases:
-        for _ in range(ctx.scale(9, 60)):
+        for _ in range(ctx.scale(9, 40)):
             tok = copy.deepcopy(token)
             need = [m for m in modes if m not in run.recommended]
             cfg = api_cfg("jwe", rng, need_allowed=need + ["A128GCM", "DEF"])
